@@ -19,11 +19,15 @@ EXTRA = {
  "R4-C10-deferral-drops-root-ops": ["C11"], "R4-C07-reindex-progress-reset-moved": ["C09"],
  "R4-C06-replay-validate-exact-fit-rejected": ["C02"], "R4-C03-validate-exact-fit-rejected": ["C02"],
  "R4-C12-replay-order-by-log-id": ["C02"], "R4-C14-rc-release-frees-only-chain-head": ["C06", "C07"],
+ "R5-C03-integrity-skip-refcount-width": ["C02", "C14"], "R5-C13-integrity-precheck-refcount-skip-width": ["C02"],
+ "R5-C05-flushed-log-queue-sorted-by-file-id": ["C01"], "R5-C12-truncate-cleaned-logs-in-id-order": ["C16", "C02"],
+ "R5-C02-read-end-of-log-push-front": ["C12"], "R5-C16-table-data-init-before-replay": ["C02", "C10"],
+ "R5-C07-reindex-overflow-no-retry": ["C09"], "R5-C14-free-stack-reversed-on-open": ["C10"],
 }
 only = sys.argv[1:]
 if only and only[0].startswith("prefix="):
-    pre = only[0][7:]
-    only = [os.path.basename(d.rstrip("/")) for d in glob.glob(ROOT + "/seeded/*/") if os.path.basename(d.rstrip("/")).startswith(pre)]
+    pres = only[0][7:].split(",")
+    only = [os.path.basename(d.rstrip("/")) for d in glob.glob(ROOT + "/seeded/*/") if any(os.path.basename(d.rstrip("/")).startswith(pre) for pre in pres)]
 out = json.load(open(ROOT + "/seeded/matrix.json")) if os.path.exists(ROOT + "/seeded/matrix.json") else {}
 for d in sorted(glob.glob(ROOT + "/seeded/*/")):
     sid = os.path.basename(d.rstrip("/"))
